@@ -223,6 +223,9 @@ def c11(ctx):
         # per-node orders in the justification round (all replayed) and in the deal / response rounds (sampled)
         pshapes = ("overlap", "shrink3", "grow")
         par.go(gen_replay, ctx, binary, "proto", "proto_reshare_just", proto_consts(3, (2,), "fcp", "min", ("just",), shapes=pshapes), 0, **P)
+        # two equivocating dealers at n=5,t=3 (regular mode): which one is caught first at each node, then duplicates
+        par.go(gen_replay, ctx, binary, "proto", "proto_n5_eq2",
+               dict(proto_consts(5, (3,), "eq2", "eq2", ("deal",), fasts=(False,)), MaxF=2), 0, **P)
         par.go(gen_replay, ctx, binary, "proto", "proto_reshare_dr", proto_consts(3, (2,), "fcp", "min", ("deal", "resp"), shapes=pshapes), 1500, **P)
         par.go(trace_repo_tests, ctx, "trace_repo_tests")
         par.go(trace_replays, ctx, binary, "trace_n4_sim", ped_consts(("fresh", "overlap", "disjoint"), 4, (3,), maxf=1, menu="small", order="two"), 0,
@@ -250,6 +253,8 @@ def c11(ctx):
         par.go(gen_replay, ctx, binary, "proto", "proto_n3_sim", proto_consts(3, (2,), "proto", "few", ("deal", "resp", "just")), 0,
                simulate="num=200", depth=12, **P, **TO)
         par.go(gen_replay, ctx, binary, "proto", "proto_n4_eq", proto_consts(4, (3,), "eq", "min", ("deal",), fasts=(True,)), 4000, **P, **TO)
+        par.go(gen_replay, ctx, binary, "proto", "proto_n5_eq2",
+               dict(proto_consts(5, (3,), "eq2all", "eq2", ("deal",)), MaxF=2), 6000, **P, **TO)
         par.go(gen_replay, ctx, binary, "proto", "proto_reshare", proto_consts(3, (2,), "fc", "min", ("deal", "resp", "just"),
                                                                               shapes=("overlap", "shrink3", "grow", "same", "shrink")), 0, **P, **TO)
         par.go(gen_replay, ctx, binary, "rabin", "rabin_n3", rabin_consts(3, (2, 3), "two"), 0, **R, **TO)
